@@ -11,7 +11,7 @@ for f in sorted(glob.glob(os.path.join(ROOT, "seeded", "*", "meta.json"))):
     first = (m.get("needs_to_manifest") or "").strip().splitlines()
     first = " ".join(x.strip("# ").strip() for x in first[:3])[:220]
     checks = "; ".join(f"{c}: {r['verdict']}" + (f" [{r['mechanisms'][0].split(' (x')[0]}]" if r.get("mechanisms") else "") for c, r in m.get("checks_quick", {}).items())
-    rows.append((m["seed_id"], m["property"], "yes" if m.get("confirmed") else "NO", m.get("tests_summary") or "(suite not re-run yet)", checks, first))
+    rows.append((m["seed_id"], m["property"], ("yes" if m.get("confirmed") else "NO") + (" (KNOWN MISS)" if m.get("known_miss") else ""), m.get("tests_summary") or "(suite not re-run yet)", checks, first))
 with open(os.path.join(ROOT, "seeded", "INDEX.md"), "w") as out:
     out.write("# Independently written property-breaking changes\n\nEach directory holds `patch.diff` (apply with `git -C /repo apply`), `demo.py` (exits 0 on the clean tree, non-zero with the patch),\n"
               "`notes.md` (author's description) and `meta.json` (what was run and what each quick check said).\n\n"
